@@ -61,7 +61,7 @@ func (r *RunResult) First() *Violation {
 	return &r.Violations[0]
 }
 
-var watchdog = 60 * time.Second
+var watchdog = 300 * time.Second // wall clock per run; generous because checks may run on a loaded or I/O-starved machine
 
 // RunOne executes one run of a world on a tape inside a fresh synctest bubble.
 func RunOne(t *testing.T, mk func() World, tape *Tape, lim Limits, keepLog bool) (res RunResult) {
